@@ -143,11 +143,20 @@ impl World {
     }
 
     pub fn doc(&self, id: u64, t: &str, v: i64) -> TantivyDocument {
+        self.doc_padded(id, t, v, 0)
+    }
+
+    /// `pad` extra tokens in the body: large documents make the MEMORY BUDGET cut segments
+    pub fn doc_padded(&self, id: u64, t: &str, v: i64, pad: u64) -> TantivyDocument {
         let mut d = TantivyDocument::default();
         d.add_u64(self.f.id, id);
         d.add_text(self.f.t, t);
         d.add_i64(self.f.v, v);
-        d.add_text(self.f.body, body_of(id, t));
+        let mut body = body_of(id, t);
+        for k in 0..pad {
+            body.push_str(&format!(" w{}x{}", id, k));
+        }
+        d.add_text(self.f.body, body);
         d
     }
 
@@ -243,7 +252,7 @@ impl World {
                 let mut uops: Vec<UserOperation> = vec![];
                 for o in op["ops"].as_array().unwrap() {
                     if o["k"] == "add" {
-                        uops.push(UserOperation::Add(self.doc(o["id"].as_u64().unwrap(), o["t"].as_str().unwrap(), o["v"].as_i64().unwrap_or(0))));
+                        uops.push(UserOperation::Add(self.doc_padded(o["id"].as_u64().unwrap(), o["t"].as_str().unwrap(), o["v"].as_i64().unwrap_or(0), o["pad"].as_u64().unwrap_or(0))));
                     } else {
                         uops.push(UserOperation::Delete(Term::from_field_text(self.f.t, o["t"].as_str().unwrap())));
                     }
@@ -377,6 +386,29 @@ impl World {
                         json!({"ev":"gc","ok":true,"deleted":del,"failed":failed,"listing":self.dir.listing(),"managed":self.managed()})
                     }
                     Err(e) => json!({"ev":"gc","ok":false,"err":errclass(&e)}),
+                }
+            }
+            "reload" => {
+                // a long-lived IndexReader on the writer's Index (subject to injected faults);
+                // the content it exposes is read back quietly
+                if self.readers.is_empty() {
+                    let r: tantivy::Result<IndexReader> = self.index.reader_builder().reload_policy(ReloadPolicy::Manual).try_into();
+                    match r {
+                        Ok(r) => self.readers.push(r),
+                        Err(e) => return json!({"ev":"reload","ok":false,"err":errclass(&e),"new":true}),
+                    }
+                }
+                match self.readers[0].reload() {
+                    Ok(()) => {
+                        let s = self.readers[0].searcher();
+                        let t = self.tracer.clone();
+                        let obs = match crate::simdir::quietly(|| observe_searcher(&s, &t)) {
+                            Ok(v) => v,
+                            Err(e) => json!({"ok":false,"err":e}),
+                        };
+                        json!({"ev":"reload","ok":true,"obs":obs})
+                    }
+                    Err(e) => json!({"ev":"reload","ok":false,"err":errclass(&e)}),
                 }
             }
             "observe" => json!({"ev":"observe","ok":true,"obs":self.observe()}),
